@@ -145,6 +145,7 @@ def cli_part(res, rnd, a):
     c07.build_tools()
     viol, done = [], 0
     hist = {}
+    named_cases = []
     work = tempfile.mkdtemp(prefix="verif-c10-")
     try:
         for k in range(6 if a.tier == "quick" else 40):
@@ -181,10 +182,12 @@ def cli_part(res, rnd, a):
                     cnt = cur_in if c == 2 else cur_out
                     lst = [rnd.randrange(cnt + 1) for _ in range(rnd.randint(1, 3))]      # any order, repeats, one past the end
                     cli.append(["-del-inputs" if c == 2 else "-del-outputs", ",".join(str(x) for x in lst)])
+                    # the ids that exist, once each (Net/TopoCli.v `named`, evaluated in Coq below and compared with this reading)
                     keep = []
                     for x in lst:
                         if x not in keep and x < cnt:
                             keep.append(x)
+                    named_cases.append((lst, cnt, sorted(keep)))
                     for x in sorted(keep, reverse=True):
                         ops.append({"op": "DelInput" if c == 2 else "DelOutput", "i": x})
                     if c == 2:
@@ -226,6 +229,12 @@ def cli_part(res, rnd, a):
                              % (meta["commands"], diff[0], got.get(diff[0]), want.get(diff[0])), meta))
     finally:
         shutil.rmtree(work, ignore_errors=True)
+    if named_cases:
+        body = ("From Coq Require Import List Arith.\nFrom BM Require Import Net.TopoCli.\nImport ListNotations.\n"
+                "Definition M := Eval vm_compute in %s.\n" % C.cq_list(["named %s %d" % (C.cq_list([str(x) for x in l]), n) for l, n, _ in named_cases]))
+        for (l, n, keep), m in zip(named_cases, C.eval_cases("C10", "cli", body)["M"]):
+            if list(m) != keep:
+                viol.append(("the model's reading of the id list %s over %d ports is %s, the driver's %s" % (l, n, list(m), keep), {"ids": l, "ports": n}))
     return viol, done, hist
 
 
